@@ -1,6 +1,1021 @@
-//! C14: not implemented yet.
-use crate::util::Args;
-pub fn main(_a: &Args) {
-    eprintln!("c14: not implemented");
-    std::process::exit(2);
+//! C14: format 1 / format 2 font info conversion, observed through `Font::load` of generated UFO
+//! directories (metainfo.plist, fontinfo.plist with legacy keys, lib.plist with RoboFab data,
+//! features.fea, an empty default layer), followed by `validate` and `save`.
+//!
+//! Output (in --out): `cases.txt` one Gallina term `(mk .., tm)` per line = the abstract input
+//! and the dump of what norad did; `cases.jsonl` the same inputs as JSON (replayable) with the
+//! direct oracle results; `summary.json` the measured input distribution.
+//! The legacy field lists and types come from `--schema FILE` (extracted from norad's source by
+//! the driver on this run), so a field added to FontInfoV1/V2 is generated automatically.
+use crate::util::*;
+use norad::error::{FontInfoErrorKind, FontInfoLoadError, FontLoadError};
+use norad::Font;
+use serde_json::{json, Value as J};
+use std::collections::BTreeMap;
+use std::path::Path;
+
+#[path = "c14_fields.rs"]
+mod fields;
+
+// ------------------------------------------------------------------------------------ values
+#[derive(Clone, Debug)]
+pub enum P {
+    Int(i128),
+    Real(f64),
+    Str(String),
+    Bool(bool),
+    Data(Vec<u8>),
+    Arr(Vec<P>),
+    Dict(Vec<(String, P)>),
+}
+
+#[derive(Clone, Debug)]
+pub struct Case {
+    pub label: String,
+    pub version: u8,
+    pub fontinfo: Option<Vec<(String, P)>>,
+    pub lib: Option<Vec<(String, P)>>,
+    pub fea: Option<String>,
+    /// surface variation: write the dictionaries' entries in this rotated order
+    pub rot: usize,
+}
+
+pub fn tm_i(z: i128) -> Tm {
+    if z < 0 {
+        Tm::L(vec![Tm::N(1), Tm::N((-z) as u64)])
+    } else {
+        Tm::L(vec![Tm::N(0), Tm::N(z as u64)])
+    }
+}
+pub fn tm_str(s: &str) -> Tm {
+    Tm::L(s.bytes().map(|b| Tm::N(b as u64)).collect())
+}
+pub fn tm_bytes(s: &[u8]) -> Tm {
+    Tm::L(s.iter().map(|b| Tm::N(*b as u64)).collect())
+}
+pub fn tm_f64(x: f64) -> Tm {
+    let (neg, m, e, class) = dyadic(x);
+    match class {
+        2 => Tm::L(vec![Tm::N(3)]),
+        1 => Tm::L(vec![Tm::N(2), Tm::b(neg)]),
+        _ => {
+            if m == 0 {
+                if neg {
+                    Tm::L(vec![Tm::N(1)])
+                } else {
+                    Tm::L(vec![Tm::N(0), tm_i(0), tm_i(0)])
+                }
+            } else {
+                let mm = if neg { -(m as i128) } else { m as i128 };
+                Tm::L(vec![Tm::N(0), tm_i(mm), tm_i(e as i128)])
+            }
+        }
+    }
+}
+
+fn g_z(z: i128) -> String {
+    if z < 0 {
+        format!("({})", z)
+    } else {
+        format!("{}", z)
+    }
+}
+fn g_f64(x: f64) -> String {
+    let (neg, m, e, class) = dyadic(x);
+    match class {
+        2 => "NaN".into(),
+        1 => format!("(Inf {})", g_bool(neg)),
+        _ => {
+            if m == 0 {
+                if neg {
+                    "NegZero".into()
+                } else {
+                    "(Fin 0 0)".into()
+                }
+            } else {
+                let mm = if neg { -(m as i128) } else { m as i128 };
+                format!("(Fin {} {})", g_z(mm), g_z(e as i128))
+            }
+        }
+    }
+}
+fn g_string(s: &str) -> String {
+    let safe = s.bytes().all(|b| (b == b' ' || b.is_ascii_alphanumeric() || b"._-()/:@;=[]{}#,+*".contains(&b)));
+    if safe {
+        format!("\"{}\"", s)
+    } else {
+        format!("(bs {})", g_bytes(s.as_bytes()))
+    }
+}
+fn g_p(p: &P) -> String {
+    match p {
+        P::Int(z) => format!("(PInt {})", g_z(*z)),
+        P::Real(x) => format!("(PReal {})", g_f64(*x)),
+        P::Str(s) => format!("(PStr {})", g_string(s)),
+        P::Bool(b) => format!("(PBool {})", g_bool(*b)),
+        P::Data(d) => format!("(PData (bs {}))", g_bytes(d)),
+        P::Arr(l) => format!("(PArr [{}])", l.iter().map(g_p).collect::<Vec<_>>().join(";")),
+        P::Dict(d) => format!("(PDict {})", g_dict(d)),
+    }
+}
+fn g_dict(d: &[(String, P)]) -> String {
+    format!(
+        "[{}]",
+        d.iter().map(|(k, v)| format!("({},{})", g_string(k), g_p(v))).collect::<Vec<_>>().join(";")
+    )
+}
+fn g_case(c: &Case) -> String {
+    format!(
+        "(mk {} {} {} {})",
+        c.version,
+        g_opt(c.fontinfo.as_ref().map(|d| g_dict(d))),
+        g_opt(c.lib.as_ref().map(|d| g_dict(d))),
+        g_opt(c.fea.as_ref().map(|s| g_string(s)))
+    )
+}
+
+fn j_p(p: &P) -> J {
+    match p {
+        P::Int(z) => json!({"i": z.to_string()}),
+        P::Real(x) => json!({"r": format!("{:016x}", x.to_bits()), "x": format!("{:?}", x)}),
+        P::Str(s) => json!({"s": s}),
+        P::Bool(b) => json!({"b": b}),
+        P::Data(d) => json!({"d": d}),
+        P::Arr(l) => json!({"a": l.iter().map(j_p).collect::<Vec<_>>()}),
+        P::Dict(d) => json!({"m": d.iter().map(|(k, v)| json!([k, j_p(v)])).collect::<Vec<_>>()}),
+    }
+}
+fn p_j(j: &J) -> P {
+    if let Some(s) = j.get("i") {
+        P::Int(s.as_str().unwrap().parse().unwrap())
+    } else if let Some(s) = j.get("r") {
+        P::Real(f64::from_bits(u64::from_str_radix(s.as_str().unwrap(), 16).unwrap()))
+    } else if let Some(s) = j.get("s") {
+        P::Str(s.as_str().unwrap().to_string())
+    } else if let Some(b) = j.get("b") {
+        P::Bool(b.as_bool().unwrap())
+    } else if let Some(d) = j.get("d") {
+        P::Data(d.as_array().unwrap().iter().map(|x| x.as_u64().unwrap() as u8).collect())
+    } else if let Some(a) = j.get("a") {
+        P::Arr(a.as_array().unwrap().iter().map(p_j).collect())
+    } else {
+        P::Dict(dict_j(j.get("m").unwrap()))
+    }
+}
+fn dict_j(j: &J) -> Vec<(String, P)> {
+    j.as_array()
+        .unwrap()
+        .iter()
+        .map(|kv| (kv[0].as_str().unwrap().to_string(), p_j(&kv[1])))
+        .collect()
+}
+fn j_case(c: &Case) -> J {
+    json!({
+        "label": c.label, "version": c.version, "rot": c.rot,
+        "fontinfo": c.fontinfo.as_ref().map(|d| j_p(&P::Dict(d.clone()))),
+        "lib": c.lib.as_ref().map(|d| j_p(&P::Dict(d.clone()))),
+        "features_fea": c.fea,
+    })
+}
+fn case_j(j: &J) -> Case {
+    let d = |k: &str| match j.get(k) {
+        Some(J::Null) | None => None,
+        Some(v) => Some(dict_j(v.get("m").unwrap())),
+    };
+    Case {
+        label: j["label"].as_str().unwrap_or("").to_string(),
+        version: j["version"].as_u64().unwrap() as u8,
+        rot: j.get("rot").and_then(|r| r.as_u64()).unwrap_or(0) as usize,
+        fontinfo: d("fontinfo"),
+        lib: d("lib"),
+        fea: j.get("features_fea").and_then(|s| s.as_str()).map(|s| s.to_string()),
+    }
+}
+
+// ------------------------------------------------------------------------- writing a UFO tree
+fn to_plist(p: &P) -> plist::Value {
+    match p {
+        P::Int(z) => {
+            if *z < 0 {
+                plist::Value::Integer((*z as i64).into())
+            } else {
+                plist::Value::Integer((*z as u64).into())
+            }
+        }
+        P::Real(x) => plist::Value::Real(*x),
+        P::Str(s) => plist::Value::String(s.clone()),
+        P::Bool(b) => plist::Value::Boolean(*b),
+        P::Data(d) => plist::Value::Data(d.clone()),
+        P::Arr(l) => plist::Value::Array(l.iter().map(to_plist).collect()),
+        P::Dict(d) => plist::Value::Dictionary(to_pdict(d, 0)),
+    }
+}
+fn to_pdict(d: &[(String, P)], rot: usize) -> plist::Dictionary {
+    let mut m = plist::Dictionary::new();
+    let n = d.len();
+    for i in 0..n {
+        let (k, v) = &d[(i + rot) % n];
+        m.insert(k.clone(), to_plist(v));
+    }
+    m
+}
+
+fn write_ufo(dir: &Path, c: &Case) {
+    let _ = std::fs::remove_dir_all(dir);
+    std::fs::create_dir_all(dir.join("glyphs")).unwrap();
+    let mut meta = plist::Dictionary::new();
+    meta.insert("creator".into(), plist::Value::String("org.verif.c14".into()));
+    meta.insert("formatVersion".into(), plist::Value::Integer((c.version as u64).into()));
+    plist::Value::Dictionary(meta).to_file_xml(dir.join("metainfo.plist")).unwrap();
+    plist::Value::Dictionary(plist::Dictionary::new())
+        .to_file_xml(dir.join("glyphs").join("contents.plist"))
+        .unwrap();
+    if let Some(fi) = &c.fontinfo {
+        // the top-level order of a struct's fields is insignificant: rotate it
+        plist::Value::Dictionary(to_pdict(fi, c.rot)).to_file_xml(dir.join("fontinfo.plist")).unwrap();
+    }
+    if let Some(lib) = &c.lib {
+        plist::Value::Dictionary(to_pdict(lib, c.rot)).to_file_xml(dir.join("lib.plist")).unwrap();
+    }
+    if let Some(f) = &c.fea {
+        std::fs::write(dir.join("features.fea"), f).unwrap();
+    }
+}
+
+// ------------------------------------------------------------------------------ observation
+fn tm_plist(v: &plist::Value) -> Tm {
+    match v {
+        plist::Value::Integer(i) => {
+            let z = if let Some(s) = i.as_signed() { s as i128 } else { i.as_unsigned().unwrap() as i128 };
+            Tm::L(vec![Tm::N(0), tm_i(z)])
+        }
+        plist::Value::Real(x) => Tm::L(vec![Tm::N(1), tm_f64(*x)]),
+        plist::Value::String(s) => Tm::L(vec![Tm::N(2), tm_str(s)]),
+        plist::Value::Boolean(b) => Tm::L(vec![Tm::N(3), Tm::b(*b)]),
+        plist::Value::Data(d) => Tm::L(vec![Tm::N(4), tm_bytes(d)]),
+        plist::Value::Array(a) => Tm::L(vec![Tm::N(5), Tm::L(a.iter().map(tm_plist).collect())]),
+        plist::Value::Dictionary(d) => Tm::L(vec![
+            Tm::N(6),
+            Tm::L(d.iter().map(|(k, v)| Tm::L(vec![tm_str(k), tm_plist(v)])).collect()),
+        ]),
+        _ => Tm::L(vec![Tm::N(99)]),
+    }
+}
+
+fn tm_kind(k: &FontInfoErrorKind) -> Tm {
+    match k {
+        FontInfoErrorKind::UnknownFontStyle(v) => Tm::L(vec![Tm::N(1), tm_i(*v as i128)]),
+        FontInfoErrorKind::UnknownMsCharSet(v) => Tm::L(vec![Tm::N(2), tm_i(*v as i128)]),
+        FontInfoErrorKind::UnknownWidthClass(s) => Tm::L(vec![Tm::N(3), tm_str(s)]),
+        FontInfoErrorKind::InvalidOpenTypeHeadCreatedDate => Tm::L(vec![Tm::N(5)]),
+        FontInfoErrorKind::DisallowedSelectionBits => Tm::L(vec![Tm::N(6)]),
+        FontInfoErrorKind::InvalidOs2FamilyClass => Tm::L(vec![Tm::N(7)]),
+        FontInfoErrorKind::InvalidPostscriptListLength { name, max_len, len } => {
+            Tm::L(vec![Tm::N(8), tm_str(name), tm_i(*max_len as i128), tm_i(*len as i128)])
+        }
+        FontInfoErrorKind::PostscriptListMustBePairs(name) => Tm::L(vec![Tm::N(9), tm_str(name)]),
+        other => Tm::L(vec![Tm::N(99), tm_str(&format!("{:?}", other))]),
+    }
+}
+
+fn tm_error(e: &FontLoadError) -> Tm {
+    match e {
+        FontLoadError::FontInfo(FontInfoLoadError::ParsePlist(_)) => Tm::L(vec![Tm::N(1)]),
+        FontLoadError::FontInfo(FontInfoLoadError::FontInfoUpconversion(k)) => Tm::L(vec![Tm::N(2), tm_kind(k)]),
+        FontLoadError::ParsePlist { name, .. } if *name == "lib.plist" => Tm::L(vec![Tm::N(3)]),
+        FontLoadError::FontInfoV1Upconversion(k) => Tm::L(vec![Tm::N(4), tm_kind(k)]),
+        other => Tm::L(vec![Tm::N(99), tm_str(&format!("{:?}", other))]),
+    }
+}
+
+pub struct Obs {
+    pub tm: Tm,
+    pub loaded: bool,
+    pub panic: Option<String>,
+    pub error: Option<String>,
+    /// direct oracle on a loaded font: (format version is 3, validate() ok, save ok, saved
+    /// metainfo says 3, reload ok, reloaded info/features/lib equal or not comparable)
+    pub oracle: Vec<(String, bool)>,
+    pub info_keys: Vec<String>,
+}
+
+fn has_nan(i: &norad::FontInfo) -> bool {
+    i != i
+}
+
+pub fn observe(dir: &Path, c: &Case) -> Obs {
+    write_ufo(dir, c);
+    let r = catch(|| Font::load(dir));
+    let mut o = Obs { tm: Tm::L(vec![]), loaded: false, panic: None, error: None, oracle: vec![], info_keys: vec![] };
+    match r {
+        Err(msg) => {
+            o.tm = Tm::L(vec![Tm::N(2), Tm::N(0)]);
+            o.panic = Some(msg);
+        }
+        Ok(Err(e)) => {
+            o.tm = Tm::L(vec![Tm::N(1), tm_error(&e)]);
+            o.error = Some(format!("{:?}", e).chars().take(200).collect());
+        }
+        Ok(Ok(font)) => {
+            o.loaded = true;
+            let d = fields::dump(&font.font_info);
+            let mut info = vec![];
+            for (idx, t) in d.into_iter().enumerate() {
+                if let Some(t) = t {
+                    info.push(Tm::L(vec![Tm::N(idx as u64), t]));
+                    o.info_keys.push(fields::KEYS[idx].to_string());
+                }
+            }
+            let mut lib: BTreeMap<&String, &plist::Value> = BTreeMap::new();
+            for (k, v) in font.lib.iter() {
+                lib.insert(k, v);
+            }
+            let libtm = Tm::L(lib.iter().map(|(k, v)| Tm::L(vec![tm_str(k), tm_plist(v)])).collect());
+            let ver = font.meta.format_version as u8;
+            o.tm = Tm::L(vec![Tm::N(0), tm_i(ver as i128), Tm::L(info), tm_str(&font.features), libtm]);
+            // ---- direct oracle: reports format 3, passes validation, can be saved
+            o.oracle.push(("format_version_is_3".into(), ver == 3));
+            let v = catch(|| font.font_info.validate());
+            o.oracle.push(("validate_ok".into(), matches!(v, Ok(Ok(())))));
+            let out = dir.with_extension("saved.ufo");
+            let s = catch(|| font.save(&out));
+            let saved = matches!(s, Ok(Ok(())));
+            o.oracle.push(("save_ok".into(), saved));
+            if saved {
+                let mv = plist::Value::from_file(out.join("metainfo.plist"))
+                    .ok()
+                    .and_then(|v| v.into_dictionary())
+                    .and_then(|d| d.get("formatVersion").and_then(|x| x.as_unsigned_integer()));
+                o.oracle.push(("saved_metainfo_says_3".into(), mv == Some(3)));
+                match catch(|| Font::load(&out)) {
+                    Ok(Ok(f2)) => {
+                        o.oracle.push(("reload_ok".into(), true));
+                        if !has_nan(&font.font_info) {
+                            o.oracle.push(("reload_info_equal".into(), f2.font_info == font.font_info));
+                        }
+                        o.oracle.push(("reload_features_equal".into(), f2.features == font.features));
+                        o.oracle.push(("reload_lib_equal".into(), f2.lib == font.lib));
+                    }
+                    _ => o.oracle.push(("reload_ok".into(), false)),
+                }
+            }
+            let _ = std::fs::remove_dir_all(&out);
+        }
+    }
+    let _ = std::fs::remove_dir_all(dir);
+    o
+}
+
+// ---------------------------------------------------------------------------------- generator
+pub struct Schema {
+    pub v1: Vec<(String, String)>,
+    pub v2: Vec<(String, String)>,
+}
+fn load_schema(p: &Path) -> Schema {
+    let j: J = serde_json::from_str(&std::fs::read_to_string(p).expect("schema file")).expect("schema json");
+    let f = |k: &str| {
+        j[k].as_array()
+            .unwrap()
+            .iter()
+            .map(|kv| (kv[0].as_str().unwrap().to_string(), kv[1].as_str().unwrap().to_string()))
+            .collect()
+    };
+    Schema { v1: f("v1"), v2: f("v2") }
+}
+
+const FONT_STYLES: [i128; 5] = [0, 1, 32, 33, 64];
+const CHARSETS: [i128; 20] =
+    [0, 1, 2, 77, 128, 129, 130, 134, 136, 161, 162, 163, 177, 178, 186, 200, 204, 222, 238, 255];
+const WIDTHS: [&str; 13] = [
+    "Ultra-condensed", "Extra-condensed", "Condensed", "Semi-condensed", "Medium (normal)", "Normal",
+    "All", "medium", "Medium", "Semi-expanded", "Expanded", "Extra-expanded", "Ultra-expanded",
+];
+const STYLES: [&str; 4] = ["regular", "italic", "bold", "bold italic"];
+
+/// a legal value for the attribute, distinct per (attribute index, salt)
+fn legal(key: &str, ty: &str, idx: usize, salt: u64) -> P {
+    let n = (idx as i128) * 37 + 101 + (salt as i128) * 4001;
+    match (key, ty) {
+        ("openTypeHeadCreated", _) => P::Str(format!(
+            "{:04}/{:02}/{:02} {:02}:{:02}:{:02}",
+            1900 + (n % 200),
+            1 + (n % 12),
+            1 + (n % 31),
+            n % 24,
+            n % 60,
+            (n / 7) % 60
+        )),
+        ("openTypeOS2Selection", _) => {
+            let pool = [1i128, 2, 3, 4, 7, 8, 9];
+            P::Arr((0..(1 + n % 3)).map(|k| P::Int(pool[((n + k) % 7) as usize])).collect())
+        }
+        ("fontStyle", _) => P::Int(FONT_STYLES[(n % 5) as usize]),
+        ("msCharSet", _) => P::Int(CHARSETS[(n % 20) as usize]),
+        ("widthName", _) => P::Str(WIDTHS[(n % 13) as usize].to_string()),
+        ("postscriptBlueValues", _) | ("postscriptFamilyBlues", _) => {
+            P::Arr((0..(2 * (n % 8))).map(|k| num(n + k, k)).collect())
+        }
+        ("postscriptOtherBlues", _) | ("postscriptFamilyOtherBlues", _) => {
+            P::Arr((0..(2 * (n % 6))).map(|k| num(n + k, k)).collect())
+        }
+        ("postscriptStemSnapH", _) | ("postscriptStemSnapV", _) => {
+            P::Arr((0..(n % 13)).map(|k| num(n + 3 * k, k)).collect())
+        }
+        (_, "TNum") => num(n, n),
+        (_, "TNonNegNum") => num(n, 0),
+        (_, "TI32") => P::Int(if n % 2 == 0 { n } else { -n }),
+        (_, "TU32") => P::Int(n),
+        (_, "TStr") => P::Str(format!("{}#{}", key, n)),
+        (_, "TBool") => P::Bool(n % 2 == 0),
+        (_, "TNums") => P::Arr((0..(n % 5)).map(|k| num(n + k, k)).collect()),
+        (_, "TBits") => P::Arr((0..(n % 4)).map(|k| P::Int((n + 11 * k) % 32)).collect()),
+        (_, "TFamilyClass") => P::Arr(vec![P::Int(n % 15), P::Int((n / 3) % 16)]),
+        (_, "TPanose") => P::Arr((0..10).map(|k| P::Int((n + k) % 23)).collect()),
+        (_, "TPanoseV2") => P::Arr((0..10).map(|k| P::Int(if k % 3 == 0 { -((n + k) % 23) } else { (n + k) % 23 })).collect()),
+        (_, "TStyle") => P::Str(STYLES[(n % 4) as usize].to_string()),
+        (_, "TWidth") => P::Int(1 + n % 9),
+        (_, "TCharSet") => P::Int(1 + n % 20),
+        _ => P::Str(format!("?{}", ty)),
+    }
+}
+/// a number with a fractional part chosen by `sel` (.0 as <integer>, .0 as <real>, .25, .5, .75,
+/// negative)
+fn num(n: i128, sel: i128) -> P {
+    match sel.rem_euclid(7) {
+        0 => P::Int(n),
+        1 => P::Real(n as f64),
+        2 => P::Real(n as f64 + 0.25),
+        3 => P::Real(n as f64 + 0.5),
+        4 => P::Real(-(n as f64) - 0.5),
+        5 => P::Real(n as f64 + 0.75),
+        _ => P::Real(-(n as f64) - 0.25),
+    }
+}
+
+fn special_reals() -> Vec<f64> {
+    let mut v = vec![
+        0.0, -0.0, 0.5, -0.5, 1.5, -1.5, 2.5, -2.5, 3.5, 0.49999999999999994, -0.49999999999999994,
+        0.9999999999999999, 1.0000000000000002, 1e-17, 5e-324, -5e-324, 2.2250738585072014e-308,
+        0.1, -0.1, 0.25, 0.75, 1.0 / 3.0, 7.3, -7.3, 12.5, -12.5, 750.0, -750.0, 1000.49, 1000.51,
+        2147483646.5, 2147483647.0, 2147483647.4, 2147483647.5, 2147483648.0, 2147483648.5,
+        -2147483647.5, -2147483648.0, -2147483648.4, -2147483648.5, -2147483649.0, 3e9, -3e9,
+        4294967294.5, 4294967295.0, 4294967295.4, 4294967295.5, 4294967296.0, -4294967295.5,
+        -4294967296.0, 4503599627370495.5, 4503599627370496.5, 9007199254740992.0, 1e15, 1e19, -1e19,
+        1e300, -1e300, f64::MAX, f64::MIN, f64::INFINITY, f64::NEG_INFINITY, f64::NAN,
+    ];
+    for k in [1.0f64, 2.0, 1000.0, 2147483647.0, 4294967295.0] {
+        v.push(f64::from_bits(k.to_bits() + 1));
+        v.push(f64::from_bits(k.to_bits() - 1));
+        v.push(-f64::from_bits(k.to_bits() + 1));
+    }
+    v
+}
+fn special_ints() -> Vec<i128> {
+    vec![
+        0, 1, -1, 2, -2, 255, 256, 65535, 2147483647, 2147483648, -2147483648, -2147483649, 4294967295,
+        4294967296, 9007199254740992, 9007199254740993, -9007199254740993, 9223372036854775807,
+        -9223372036854775808, 18446744073709551615, 9223372036854775808, 18014398509481985,
+    ]
+}
+
+fn case(label: &str, version: u8, fi: Option<Vec<(String, P)>>, lib: Option<Vec<(String, P)>>, fea: Option<&str>) -> Case {
+    Case { label: label.to_string(), version, fontinfo: fi, lib, fea: fea.map(|s| s.to_string()), rot: 0 }
+}
+
+fn schema_of(s: &Schema, v: u8) -> &Vec<(String, String)> {
+    if v == 1 {
+        &s.v1
+    } else {
+        &s.v2
+    }
+}
+
+const LIB_HINT: &str = "org.robofab.postScriptHintData";
+const LIB_CLASSES: &str = "org.robofab.opentype.classes";
+const LIB_ORDER: &str = "org.robofab.opentype.featureorder";
+const LIB_FEATURES: &str = "org.robofab.opentype.features";
+
+fn rand_plist(r: &mut Rng, depth: u32) -> P {
+    match r.below(if depth == 0 { 5 } else { 7 }) {
+        0 => P::Int(r.range(-1000, 1000) as i128),
+        1 => P::Real(r.range(-4000, 4000) as f64 / 8.0),
+        2 => P::Str(format!("v{}", r.below(1000))),
+        3 => P::Bool(r.chance(1, 2)),
+        4 => P::Data((0..r.below(6)).map(|_| r.below(256) as u8).collect()),
+        5 => P::Arr((0..r.below(4)).map(|_| rand_plist(r, depth - 1)).collect()),
+        _ => P::Dict((0..r.below(4)).map(|k| (format!("k{}{}", k, r.below(50)), rand_plist(r, depth - 1))).collect()),
+    }
+}
+
+fn hint_dict(r: &mut Rng, full: bool, valid: bool) -> Vec<(String, P)> {
+    let mut d: Vec<(String, P)> = vec![];
+    let mut pairs = |r: &mut Rng, maxpairs: u64| -> P {
+        let n = if valid { r.below(maxpairs + 1) } else { r.below(maxpairs + 3) };
+        P::Arr(
+            (0..n)
+                .map(|k| {
+                    if valid || r.chance(3, 4) {
+                        P::Arr(vec![num(r.range(-300, 900) as i128, k as i128), num(r.range(-300, 900) as i128, 0)])
+                    } else {
+                        // odd total length / empty inner list
+                        P::Arr((0..r.below(4)).map(|_| P::Int(r.range(-9, 9) as i128)).collect())
+                    }
+                })
+                .collect(),
+        )
+    };
+    let keys: [(&str, u8); 10] = [
+        ("blueFuzz", 0), ("blueScale", 0), ("blueShift", 0), ("blueValues", 7), ("otherBlues", 5),
+        ("familyBlues", 7), ("familyOtherBlues", 5), ("forceBold", 1), ("hStems", 2), ("vStems", 2),
+    ];
+    for (k, kind) in keys.iter() {
+        if !(full || r.chance(1, 2)) {
+            continue;
+        }
+        let v = match kind {
+            0 => num(r.range(0, 40) as i128, r.range(0, 6) as i128),
+            1 => P::Bool(r.chance(1, 2)),
+            2 => {
+                let n = if valid { r.below(13) } else { r.below(16) };
+                P::Arr((0..n).map(|q| num(r.range(10, 300) as i128, q as i128)).collect())
+            }
+            m => pairs(r, *m as u64),
+        };
+        d.push((k.to_string(), v));
+    }
+    if r.chance(1, 4) {
+        d.push(("someOtherKey".into(), rand_plist(r, 1)));
+    }
+    d
+}
+
+fn feature_lib(r: &mut Rng) -> Vec<(String, P)> {
+    let tags = ["kern", "liga", "aalt", "smcp", "c2sc", "Zzzz", "a", "ab", "B", "\u{e9}x"];
+    let mut lib = vec![];
+    if r.chance(2, 3) {
+        let c = match r.below(4) {
+            0 => String::new(),
+            1 => "@caps = [A B C];\n".to_string(),
+            2 => "@a=[a];".to_string(),
+            _ => format!("# classes {}\n@x = [x y];\n", r.below(100)),
+        };
+        lib.push((LIB_CLASSES.to_string(), P::Str(c)));
+    }
+    let mut present: Vec<&str> = vec![];
+    if r.chance(4, 5) {
+        let n = r.below(5) as usize;
+        let mut pool: Vec<&str> = tags.to_vec();
+        let mut blocks = vec![];
+        for _ in 0..n {
+            let t = pool.remove(r.below(pool.len() as u64) as usize);
+            present.push(t);
+            let body = if r.chance(1, 8) { String::new() } else { format!("feature {} {{ sub a by b{}; }} {};\n", t, r.below(100), t) };
+            blocks.push((t.to_string(), P::Str(body)));
+        }
+        lib.push((LIB_FEATURES.to_string(), P::Dict(blocks)));
+    }
+    if r.chance(1, 2) {
+        // an order list: a permutation / subset of the blocks, unknown tags, duplicates
+        let mut order: Vec<P> = vec![];
+        let mut pool = present.clone();
+        while !pool.is_empty() && r.chance(5, 6) {
+            order.push(P::Str(pool.remove(r.below(pool.len() as u64) as usize).to_string()));
+        }
+        if r.chance(1, 3) {
+            order.insert(r.below(order.len() as u64 + 1) as usize, P::Str("none".into()));
+        }
+        if !order.is_empty() && r.chance(1, 4) {
+            let d = order[r.below(order.len() as u64) as usize].clone();
+            order.push(d);
+        }
+        lib.push((LIB_ORDER.to_string(), P::Arr(order)));
+    }
+    lib
+}
+
+fn other_lib_entries(r: &mut Rng) -> Vec<(String, P)> {
+    let mut v = vec![];
+    let names = ["com.example.foo", "public.glyphOrder", "org.robofab.other", "org.robofab.opentype.featureorderX", "z", "A"];
+    for n in names.iter() {
+        if r.chance(1, 3) {
+            v.push((n.to_string(), rand_plist(r, 2)));
+        }
+    }
+    v
+}
+
+fn shuffle<T>(r: &mut Rng, v: &mut Vec<T>) {
+    for k in (1..v.len()).rev() {
+        let j = r.below(k as u64 + 1) as usize;
+        v.swap(k, j);
+    }
+}
+
+pub fn gen_cases(s: &Schema, seed: u64, thorough: bool) -> Vec<Case> {
+    let mut r = Rng::new(seed ^ 0xC14);
+    let mut cs: Vec<Case> = vec![];
+    let scale: u64 = if thorough { 20 } else { 1 };
+
+    // -- A. every legacy attribute individually, a few distinct values each
+    for v in [1u8, 2u8] {
+        let sch = schema_of(s, v).clone();
+        for (idx, (k, t)) in sch.iter().enumerate() {
+            for salt in 0..(3 * scale) {
+                cs.push(case(&format!("single:{}", k), v, Some(vec![(k.clone(), legal(k, t, idx, salt + seed % 97))]), None, None));
+            }
+        }
+        // -- B. all attributes together with distinct values; random subsets
+        for salt in 0..(6 * scale) {
+            let mut fi: Vec<(String, P)> =
+                sch.iter().enumerate().map(|(idx, (k, t))| (k.clone(), legal(k, t, idx, salt + seed % 89))).collect();
+            if salt % 2 == 1 {
+                shuffle(&mut r, &mut fi);
+            }
+            cs.push(case("all-attributes", v, Some(fi), None, None));
+        }
+        for _ in 0..(60 * scale) {
+            let mut fi: Vec<(String, P)> = vec![];
+            let p = 1 + r.below(4);
+            for (idx, (k, t)) in sch.iter().enumerate() {
+                if r.chance(p, 5) {
+                    fi.push((k.clone(), legal(k, t, idx, r.below(1000))));
+                }
+            }
+            shuffle(&mut r, &mut fi);
+            cs.push(case("subset", v, Some(fi), None, None));
+        }
+        cs.push(case("empty-fontinfo", v, Some(vec![]), None, None));
+        cs.push(case("no-fontinfo", v, None, None, None));
+    }
+
+    // -- C. enumeration codes, exhaustively over a window around the tables
+    for code in -5i128..=300 {
+        cs.push(case("fontStyle-code", 1, Some(vec![("fontStyle".into(), P::Int(code))]), None, None));
+        cs.push(case("msCharSet-code", 1, Some(vec![("msCharSet".into(), P::Int(code))]), None, None));
+    }
+    for code in [-2147483648i128, -1000, 301, 1000, 65536, 2147483647] {
+        cs.push(case("fontStyle-code-far", 1, Some(vec![("fontStyle".into(), P::Int(code))]), None, None));
+        cs.push(case("msCharSet-code-far", 1, Some(vec![("msCharSet".into(), P::Int(code))]), None, None));
+    }
+    for w in -5i128..=12 {
+        cs.push(case("weightValue", 1, Some(vec![("weightValue".into(), P::Int(w))]), None, None));
+    }
+    for w in [-2147483648i128, -2147483647, -1000, 400, 1000, 2147483647] {
+        cs.push(case("weightValue-far", 1, Some(vec![("weightValue".into(), P::Int(w))]), None, None));
+    }
+    // several enumerations at once: which error is reported first
+    for _ in 0..(80 * scale) {
+        let mut fi = vec![];
+        let code = |r: &mut Rng, good: &[i128]| -> i128 {
+            if r.chance(1, 2) { *r.pick(good) } else { r.range(-3, 260) as i128 }
+        };
+        if r.chance(4, 5) { fi.push(("fontStyle".to_string(), P::Int(code(&mut r, &FONT_STYLES)))); }
+        if r.chance(4, 5) { fi.push(("msCharSet".to_string(), P::Int(code(&mut r, &CHARSETS)))); }
+        if r.chance(4, 5) {
+            let w = if r.chance(1, 2) { r.pick(&WIDTHS).to_string() } else { "Wide".to_string() };
+            fi.push(("widthName".to_string(), P::Str(w)));
+        }
+        if r.chance(1, 2) { fi.push(("weightValue".to_string(), P::Int(r.range(-2, 3) as i128))); }
+        shuffle(&mut r, &mut fi);
+        cs.push(case("enum-combination", 1, Some(fi), None, None));
+    }
+
+    // -- D. width names and near misses
+    let mut names: Vec<String> = WIDTHS.iter().map(|s| s.to_string()).collect();
+    for w in WIDTHS.iter() {
+        names.push(w.to_lowercase());
+        names.push(w.to_uppercase());
+        names.push(format!("{} ", w));
+        names.push(format!(" {}", w));
+        names.push(w[..w.len() - 1].to_string());
+        names.push(format!("{}x", w));
+        names.push(w.replace('-', " "));
+        names.push(w.replace('-', ""));
+    }
+    for extra in ["", "normal", "Regular", "Medium(normal)", "Medium (Normal)", "all", "ALL", "Bold", "5", "Ultra\u{2010}condensed", "M\u{e9}dium", "Expanded\n", "\"Normal\""] {
+        names.push(extra.to_string());
+    }
+    for n in names {
+        cs.push(case("widthName", 1, Some(vec![("widthName".into(), P::Str(n))]), None, None));
+    }
+
+    // -- E. numeric classes on every numeric conversion
+    let reals = special_reals();
+    let ints = special_ints();
+    for v in [1u8, 2u8] {
+        let sch = schema_of(s, v).clone();
+        let numeric: Vec<&(String, String)> = sch.iter().filter(|(_, t)| t == "TNum").collect();
+        let int32: Vec<&(String, String)> = sch.iter().filter(|(_, t)| t == "TI32").collect();
+        // every numeric attribute meets every special value in thorough; a rotating slice in quick
+        for (fi, (k, _)) in numeric.iter().enumerate() {
+            for (vi, x) in reals.iter().enumerate() {
+                if thorough || (vi + fi + seed as usize) % 6 == 0 || k == "unitsPerEm" {
+                    cs.push(case("real-class", v, Some(vec![(k.to_string(), P::Real(*x))]), None, None));
+                }
+            }
+            for (vi, z) in ints.iter().enumerate() {
+                if thorough || (vi + fi + seed as usize) % 5 == 0 || k == "unitsPerEm" {
+                    cs.push(case("int-for-number", v, Some(vec![(k.to_string(), P::Int(*z))]), None, None));
+                }
+            }
+        }
+        // ties and the casts' boundaries reach every numeric attribute in every run
+        let always = [0.5f64, -0.5, 1.5, -1.5, 2.5, -2.5, 1000.5, -1000.5, 2147483647.5, -2147483648.5, 4294967295.5, -3e9, 3e9];
+        for (k, _) in numeric.iter() {
+            for x in always.iter() {
+                cs.push(case("real-tie", v, Some(vec![(k.to_string(), P::Real(*x))]), None, None));
+            }
+        }
+        let uint32: Vec<&(String, String)> = sch.iter().filter(|(_, t)| t == "TU32").collect();
+        for (k, _) in uint32.iter() {
+            for z in ints.iter() {
+                cs.push(case("uint-class", v, Some(vec![(k.to_string(), P::Int(*z))]), None, None));
+            }
+            cs.push(case("real-for-uint", v, Some(vec![(k.to_string(), P::Real(400.0))]), None, None));
+        }
+        for (fi, (k, _)) in int32.iter().enumerate() {
+            for (vi, z) in ints.iter().enumerate() {
+                if thorough || (vi + fi) % 4 == 0 || k == "versionMinor" || k == "weightValue" {
+                    cs.push(case("int-class", v, Some(vec![(k.to_string(), P::Int(*z))]), None, None));
+                }
+            }
+            cs.push(case("real-for-int", v, Some(vec![(k.to_string(), P::Real(3.0))]), None, None));
+        }
+        // random numbers on random numeric attributes
+        for _ in 0..(150 * scale) {
+            let (k, _) = *r.pick(&numeric);
+            let x = match r.below(5) {
+                0 => r.range(-5000, 5000) as f64 / 2.0,
+                1 => r.range(-100000, 100000) as f64 / 16.0,
+                2 => f64::from_bits(r.next()),
+                3 => (r.range(-3, 3) as f64) * 2147483647.75 + r.range(-2, 2) as f64 * 0.5,
+                _ => r.range(-40, 40) as f64 + 0.5,
+            };
+            cs.push(case("real-random", v, Some(vec![(k.to_string(), P::Real(x))]), None, None));
+        }
+    }
+    // panose
+    for _ in 0..(12 * scale) {
+        let l: Vec<P> = (0..10)
+            .map(|_| P::Int(*r.pick(&[0i128, 1, -1, 5, -5, 255, -256, 2147483647, -2147483648, -2147483647])))
+            .collect();
+        cs.push(case("panose", 2, Some(vec![("openTypeOS2Panose".into(), P::Arr(l))]), None, None));
+    }
+    for n in [0usize, 9, 11] {
+        cs.push(case("panose-length", 2, Some(vec![("openTypeOS2Panose".into(), P::Arr((0..n).map(|k| P::Int(k as i128)).collect()))]), None, None));
+    }
+    cs.push(case("panose-out-of-range", 2, Some(vec![("openTypeOS2Panose".into(), P::Arr((0..10).map(|k| P::Int(if k == 4 { 2147483648 } else { 1 })).collect()))]), None, None));
+
+    // -- F. format-2 enumerations are read by the typed reader
+    for w in -1i128..=11 {
+        cs.push(case("v2-widthClass", 2, Some(vec![("openTypeOS2WidthClass".into(), P::Int(w))]), None, None));
+    }
+    for c in [-1i128, 0, 1, 2, 19, 20, 21, 255, 256] {
+        cs.push(case("v2-charset", 2, Some(vec![("postscriptWindowsCharacterSet".into(), P::Int(c))]), None, None));
+    }
+    for st in ["regular", "italic", "bold", "bold italic", "Regular", "bolditalic", "", "italic "] {
+        cs.push(case("v2-styleMapStyleName", 2, Some(vec![("styleMapStyleName".into(), P::Str(st.into()))]), None, None));
+    }
+
+    // -- G. converted info that fails validation
+    let dates = [
+        "2020/01/01 00:00:00", "2020/12/31 23:59:59", "2020/13/01 00:00:00", "2020/00/10 00:00:00",
+        "2020/01/00 00:00:00", "2020/01/32 00:00:00", "2020/01/01 24:00:00", "2020/01/01 00:60:00",
+        "2020/01/01 00:00:60", "2020-01-01 00:00:00", "2020/01/01T00:00:00", "2020/1/1 0:0:0",
+        "2020/01/01 00:00:0", "2020/01/01 00:00:000", "", "0000/01/01 00:00:00", "9999/12/31 23:59:59",
+        " 020/01/01 00:00:00", "2020/ 1/01 00:00:00", "2020/01/01 00:00:0\u{e9}", "2020/01/01  0:00:00",
+        "20200/1/01 00:00:00", "2020/01/01/00:00:00", "2020/01/01 00 00 00", "////////// ::::::::",
+    ];
+    for d in dates.iter() {
+        cs.push(case("v2-date", 2, Some(vec![("openTypeHeadCreated".into(), P::Str(d.to_string()))]), None, None));
+    }
+    for bits in [vec![], vec![0i128], vec![5], vec![6], vec![1, 2, 3, 4], vec![7, 8, 9, 0], vec![1, 6, 2], vec![255], vec![256], vec![-1]] {
+        cs.push(case("v2-selection", 2, Some(vec![("openTypeOS2Selection".into(), P::Arr(bits.into_iter().map(P::Int).collect()))]), None, None));
+    }
+    for fc in [vec![0i128, 0], vec![14, 15], vec![15, 0], vec![0, 16], vec![14, 16], vec![255, 255], vec![1], vec![1, 2, 3], vec![], vec![256, 0]] {
+        cs.push(case("v2-familyClass", 2, Some(vec![("openTypeOS2FamilyClass".into(), P::Arr(fc.into_iter().map(P::Int).collect()))]), None, None));
+    }
+    for (k, _max) in [("postscriptBlueValues", 14), ("postscriptOtherBlues", 10), ("postscriptFamilyBlues", 14), ("postscriptFamilyOtherBlues", 10), ("postscriptStemSnapH", 12), ("postscriptStemSnapV", 12)] {
+        for n in 0..=16usize {
+            cs.push(case("v2-ps-list-length", 2, Some(vec![(k.to_string(), P::Arr((0..n).map(|q| num(q as i128 * 10, q as i128)).collect()))]), None, None));
+        }
+    }
+    // several invalid attributes at once: which check fires first
+    for _ in 0..(30 * scale) {
+        let mut fi = vec![];
+        if r.chance(1, 2) { fi.push(("openTypeHeadCreated".to_string(), P::Str(r.pick(&dates).to_string()))); }
+        if r.chance(1, 2) { fi.push(("openTypeOS2Selection".to_string(), P::Arr(vec![P::Int(r.below(8) as i128)]))); }
+        if r.chance(1, 2) { fi.push(("openTypeOS2FamilyClass".to_string(), P::Arr(vec![P::Int(r.range(12, 16) as i128), P::Int(r.range(13, 17) as i128)]))); }
+        for k in ["postscriptBlueValues", "postscriptOtherBlues", "postscriptFamilyBlues", "postscriptFamilyOtherBlues", "postscriptStemSnapH", "postscriptStemSnapV"] {
+            if r.chance(1, 3) {
+                fi.push((k.to_string(), P::Arr((0..r.range(8, 16)).map(|q| P::Int(q as i128)).collect())));
+            }
+        }
+        shuffle(&mut r, &mut fi);
+        cs.push(case("v2-invalid-combination", 2, Some(fi), None, None));
+    }
+
+    // -- H. format-1 lib data
+    for i in 0..(260 * scale) {
+        let mut lib = vec![];
+        if r.chance(3, 4) {
+            let valid = r.chance(3, 4);
+            lib.push((LIB_HINT.to_string(), P::Dict(hint_dict(&mut r, i % 7 == 0, valid))));
+        }
+        lib.extend(feature_lib(&mut r));
+        lib.extend(other_lib_entries(&mut r));
+        shuffle(&mut r, &mut lib);
+        let fea = match r.below(3) { 0 => None, 1 => Some("# features.fea on disk\n"), _ => Some("") };
+        let sch = &s.v1;
+        let fi = if r.chance(2, 3) {
+            let mut fi: Vec<(String, P)> = vec![];
+            for (idx, (k, t)) in sch.iter().enumerate() {
+                if r.chance(1, 6) { fi.push((k.clone(), legal(k, t, idx, r.below(500)))); }
+            }
+            Some(fi)
+        } else { None };
+        // the same lib under format 2 must be left alone
+        let ver = if i % 6 == 5 { 2 } else { 1 };
+        let fi = if ver == 2 { None } else { fi };
+        cs.push(case("robofab", ver, fi, Some(lib), fea));
+    }
+    cs.push(case("robofab-empty-lib", 1, None, Some(vec![]), None));
+    cs.push(case("robofab-empty-lib-fea", 1, None, Some(vec![]), Some("languagesystem DFLT dflt;\n")));
+    cs.push(case("robofab-empty-features-dict", 1, None, Some(vec![(LIB_FEATURES.into(), P::Dict(vec![]))]), Some("on disk")));
+    cs.push(case("robofab-empty-classes", 1, None, Some(vec![(LIB_CLASSES.into(), P::Str("".into()))]), Some("on disk")));
+    cs.push(case("robofab-order-only", 1, None, Some(vec![(LIB_ORDER.into(), P::Arr(vec![P::Str("kern".into())]))]), Some("on disk")));
+    cs.push(case("robofab-hint-empty", 1, Some(vec![("fontStyle".into(), P::Int(64))]), Some(vec![(LIB_HINT.into(), P::Dict(vec![]))]), None));
+    // ill-typed lib data
+    let bad: Vec<(&str, P)> = vec![
+        (LIB_CLASSES, P::Int(1)), (LIB_ORDER, P::Str("kern".into())), (LIB_ORDER, P::Arr(vec![P::Int(1)])),
+        (LIB_FEATURES, P::Arr(vec![])), (LIB_FEATURES, P::Dict(vec![("kern".into(), P::Int(1))])),
+        (LIB_HINT, P::Arr(vec![])), (LIB_HINT, P::Dict(vec![("blueFuzz".into(), P::Str("1".into()))])),
+        (LIB_HINT, P::Dict(vec![("blueValues".into(), P::Arr(vec![P::Int(1), P::Int(2)]))])),
+        (LIB_HINT, P::Dict(vec![("hStems".into(), P::Arr(vec![P::Arr(vec![P::Int(1)])]))])),
+        (LIB_HINT, P::Dict(vec![("forceBold".into(), P::Int(1))])),
+        (LIB_HINT, P::Dict(vec![("forceBold".into(), P::Bool(false)), ("blueScale".into(), P::Bool(true))])),
+    ];
+    for (k, v) in bad {
+        for ver in [1u8, 2u8] {
+            cs.push(case("robofab-ill-typed", ver, None, Some(vec![(k.to_string(), v.clone()), ("keep".into(), P::Int(7))]), None));
+        }
+    }
+
+    // -- I. files the typed reader rejects
+    for v in [1u8, 2u8] {
+        let sch = schema_of(s, v).clone();
+        let other = schema_of(s, 3 - v).clone();
+        for (k, t) in other.iter() {
+            if !sch.iter().any(|(k2, _)| k2 == k) && (thorough || r.chance(1, 3)) {
+                cs.push(case("foreign-key", v, Some(vec![(k.clone(), legal(k, t, 3, 1))]), None, None));
+            }
+        }
+        for k in ["guidelines", "woffMajorVersion", "openTypeGaspRangeRecords", "unknownKey", "Ascender", "ascender "] {
+            cs.push(case("unknown-key", v, Some(vec![(k.to_string(), P::Int(1))]), None, None));
+        }
+        for (idx, (k, t)) in sch.iter().enumerate() {
+            if thorough || (idx + seed as usize) % 3 == 0 {
+                let wrong = match t.as_str() {
+                    "TStr" | "TStyle" => P::Int(5),
+                    "TBool" => P::Str("true".into()),
+                    "TNum" => P::Str("12".into()),
+                    "TNums" | "TBits" | "TFamilyClass" | "TPanoseV2" => P::Int(3),
+                    _ => P::Real(1.5),
+                };
+                cs.push(case("wrong-type", v, Some(vec![(k.clone(), wrong)]), None, None));
+            }
+        }
+    }
+
+    // surface variation: rotate the order in which the dictionaries are written
+    for (i, c) in cs.iter_mut().enumerate() {
+        let n = c.fontinfo.as_ref().map(|d| d.len()).unwrap_or(0).max(c.lib.as_ref().map(|d| d.len()).unwrap_or(0));
+        if n > 1 && i % 3 == 1 {
+            c.rot = 1 + (i + seed as usize) % (n - 1);
+        }
+    }
+    cs
+}
+
+fn corpus_cases(dir: &Path) -> Vec<Case> {
+    let mut v = vec![];
+    if let Ok(rd) = std::fs::read_dir(dir) {
+        let mut files: Vec<_> = rd.filter_map(|e| e.ok()).map(|e| e.path()).filter(|p| p.extension().map(|e| e == "json").unwrap_or(false)).collect();
+        files.sort();
+        for p in files {
+            if let Ok(txt) = std::fs::read_to_string(&p) {
+                if let Ok(j) = serde_json::from_str::<J>(&txt) {
+                    let inp = j.get("input").cloned().unwrap_or(j);
+                    if inp.get("version").is_some() {
+                        let mut c = case_j(&inp);
+                        c.label = format!("corpus:{}", p.file_name().unwrap().to_string_lossy());
+                        v.push(c);
+                    }
+                }
+            }
+        }
+    }
+    v
+}
+
+fn run_cases(a: &Args, cases: Vec<Case>) {
+    std::fs::create_dir_all(&a.out).unwrap();
+    let work = a.out.join("ufo");
+    std::fs::create_dir_all(&work).unwrap();
+    let mut lines = String::new();
+    let mut jl = String::new();
+    let mut dist: BTreeMap<String, u64> = BTreeMap::new();
+    let mut outcome: BTreeMap<String, u64> = BTreeMap::new();
+    let mut keys_seen: BTreeMap<String, u64> = BTreeMap::new();
+    for (i, c) in cases.iter().enumerate() {
+        let dir = work.join(format!("c{}.ufo", i));
+        let o = observe(&dir, c);
+        // the same abstract input written in canonical order must behave identically
+        let mut tm = o.tm.clone();
+        let mut variant_differs = false;
+        if c.rot != 0 {
+            let mut c0 = c.clone();
+            c0.rot = 0;
+            let o0 = observe(&dir, &c0);
+            if o0.tm != o.tm {
+                variant_differs = true;
+                tm = Tm::L(vec![Tm::N(98), o0.tm.clone(), o.tm.clone()]);
+            }
+        }
+        lines.push_str(&format!("({}, {})\n", g_case(c), tm.to_string()));
+        let kind = c.label.split(':').next().unwrap().to_string();
+        *dist.entry(kind).or_insert(0) += 1;
+        let oc = if o.loaded { "loaded" } else if o.panic.is_some() { "panic" } else { "error" };
+        *outcome.entry(oc.to_string()).or_insert(0) += 1;
+        for k in &o.info_keys {
+            *keys_seen.entry(k.clone()).or_insert(0) += 1;
+        }
+        let mut j = j_case(c);
+        j["index"] = json!(i);
+        j["loaded"] = json!(o.loaded);
+        j["panic"] = json!(o.panic);
+        j["error"] = json!(o.error);
+        j["variant_differs"] = json!(variant_differs);
+        j["oracle"] = json!(o.oracle.iter().map(|(k, v)| json!([k, v])).collect::<Vec<_>>());
+        j["info_keys"] = json!(o.info_keys);
+        jl.push_str(&j.to_string());
+        jl.push('\n');
+    }
+    write_file(&a.out.join("cases.txt"), &lines);
+    write_file(&a.out.join("cases.jsonl"), &jl);
+    let summary = json!({
+        "cases": cases.len(), "by_kind": dist, "by_outcome": outcome,
+        "format3_attributes_observed_set": keys_seen.len(), "attribute_hits": keys_seen,
+    });
+    write_file(&a.out.join("summary.json"), &summary.to_string());
+    let _ = std::fs::remove_dir_all(&work);
+}
+
+pub fn main(a: &Args) {
+    if let Some(rp) = &a.replay {
+        // a file with one JSON case (or a replay file with an "input" member)
+        let j: J = serde_json::from_str(&std::fs::read_to_string(rp).expect("replay file")).expect("json");
+        let inp = j.get("input").cloned().unwrap_or(j);
+        let c = case_j(&inp);
+        std::fs::create_dir_all(&a.out).unwrap();
+        let o = observe(&a.out.join("replay.ufo"), &c);
+        println!("input: {}", j_case(&c));
+        println!("loaded: {}", o.loaded);
+        if let Some(e) = &o.error {
+            println!("error: {}", e);
+        }
+        if let Some(p) = &o.panic {
+            println!("panic: {}", p);
+        }
+        println!("format-3 attributes set: {:?}", o.info_keys);
+        for (k, v) in &o.oracle {
+            println!("oracle {}: {}", k, v);
+        }
+        println!("dump: {}", o.tm.to_string());
+        return;
+    }
+    let mut schema_path = None;
+    let mut corpus = None;
+    let mut i = 0;
+    while i < a.extra.len() {
+        match a.extra[i].as_str() {
+            "--schema" => {
+                schema_path = Some(a.extra[i + 1].clone());
+                i += 1;
+            }
+            "--corpus" => {
+                corpus = Some(a.extra[i + 1].clone());
+                i += 1;
+            }
+            _ => {}
+        }
+        i += 1;
+    }
+    let s = load_schema(Path::new(&schema_path.expect("--schema FILE required")));
+    let mut cases = vec![];
+    if let Some(c) = corpus {
+        cases.extend(corpus_cases(Path::new(&c)));
+    }
+    cases.extend(gen_cases(&s, a.seed, a.thorough()));
+    run_cases(a, cases);
 }
